@@ -176,13 +176,11 @@ theorem finV_plain (opts : Opts) : ∀ (v w : Value), finV opts v = .ok w → pl
     simp only [finV, bind, Except.bind, pure, Except.pure] at h
     split at h
     · simp at h
-    · cases hr : finL opts l with
-      | error e => simp [hr] at h
-      | ok r =>
-        simp only [hr] at h
-        split at h
-        · simp at h; subst h; simpa [plain] using finL_plain opts l r hr
-        · simp at h
+    · split at h
+      · split at h <;> simp at h
+      · cases hr : finL opts l with
+        | error e => simp [hr] at h
+        | ok r => simp [hr] at h; subst h; simpa [plain] using finL_plain opts l r hr
   | .dict d, w, h => by
     simp only [finV, bind, Except.bind, pure, Except.pure] at h
     split at h
@@ -238,18 +236,38 @@ end
 
 /-- with `convertSetsToLists` off a set is handed out as a Python set: its finalised members must be hashable (a member
     that was a tuple has become a list under `convertTuplesToLists`: TypeError) -/
+theorem finSetErrs_nil (opts : Opts) (hs : opts.setsToLists = false) :
+    ∀ (l r : List Value), finSetErrs opts l = [] → finL opts l = .ok r → outHashableL r = true
+  | [], r, _, h => by simp [finL, pure, Except.pure] at h; subst h; simp [outHashableL]
+  | x :: xs, r, he, h => by
+    simp only [finL, bind, Except.bind, pure, Except.pure] at h
+    simp only [finSetErrs, List.append_eq_nil_iff] at he
+    cases hx : finV opts x with
+    | error e => simp [hx] at h
+    | ok x' =>
+      cases hr : finL opts xs with
+      | error e => simp [hx, hr] at h
+      | ok r' =>
+        simp [hx, hr] at h; subst h
+        have h1 := he.1
+        simp only [hx, hs] at h1
+        have hx' : outHashable x' = true := by
+          by_cases hh : outHashable x' = true
+          · exact hh
+          · simp [hh] at h1
+        simp [outHashableL, hx', finSetErrs_nil opts hs xs r' he.2 hr]
+
 theorem finV_set_strict (opts : Opts) (hs : opts.setsToLists = false) (l : List Value) (v : Value)
     (h : finV opts (Value.set l) = .ok v) : ∃ r, v = Value.set r ∧ outHashableL r = true ∧ finL opts l = .ok r := by
-  simp only [finV, bind, Except.bind, pure, Except.pure, hs] at h
+  simp only [finV, bind, Except.bind, pure, Except.pure] at h
   split at h
   · simp at h
-  · cases hr : finL opts l with
-    | error e => simp [hr] at h
-    | ok r =>
-      simp only [hr] at h
-      split at h
-      · rename_i hh; simp at hh h; exact ⟨r, h.symm, hh, rfl⟩
-      · simp at h
+  · split at h
+    · split at h <;> simp at h
+    · rename_i he
+      cases hr : finL opts l with
+      | error e => simp [hr] at h
+      | ok r => simp [hr] at h; exact ⟨r, h.symm, finSetErrs_nil opts hs l r he hr, rfl⟩
 
 /-! ### input conversion -/
 
